@@ -87,8 +87,8 @@ Print Assumptions C07_T_zero_means_off.
       a composite product of unitary constituents (scale factors -i, i have modulus 1) is unitary. *)
 Theorem C07_unitary_when_relaxation_off :
   forall expm : Cmat -> Cmat, expm Z2 = I2 -> expm Z4 = I4 ->
-  (forall A, sq2 A -> Cm_dag A = Cm_scale (- (1))%C A -> unitary2 (expm A)) ->
-  (forall A, sq4 A -> Cm_dag A = Cm_scale (- (1))%C A -> unitary4 (expm A)) ->
+  (forall A, sq2 A -> Cm_dag A = Cm_scale (- (RtoC 1))%C A -> unitary2 (expm A)) ->
+  (forall A, sq4 A -> Cm_dag A = Cm_scale (- (RtoC 1))%C A -> unitary4 (expm A)) ->
   (forall rho p, In p gen_sq_paths -> t1_off_sq p = true -> unitary2 (sample expm rho p)) /\
   (forall rho p, In p gen_cr_paths -> t1_off_cr p = true -> unitary4 (sample expm rho p)) /\
   (forall rho, unitary2 (expm (interpM rho gen_depol_N))) /\
